@@ -501,3 +501,59 @@ PROPS["C03"]["level_text"] += " A fifth start state has a logged-in lazy-mode se
 for _p in ("C10", "C14", "C15"):
     PROPS[_p]["tiers"]["thorough"]["budget_s"] = 3600
 
+# ---- memory-safety oracles on the protocol-state explorations of other checks (--san-as): the sanitizers are the only
+# oracle there, reports in the server count for C05 and reports in the client for C06
+def _extra_cov(st, names):
+    out = {}
+    for n in names:
+        p = st["parts"].get(n)
+        if p:
+            out[n] = {"executions": p.get("execs"), "states": p.get("states"), "transitions": p.get("steps") or p.get("transitions"), "exhaustive_within_bound": not p.get("incomplete"), "wall_s": p.get("wall_s")}
+    return out
+
+_C05_EXTRA = ["auth", "lazy", "fwd", "ea", "two"]
+_cov_c05_main = cov_c05
+def cov_c05_parts(st, tier):
+    base = _cov_c05_main(st["parts"]["main"], tier)
+    ex = _extra_cov(st, _C05_EXTRA)
+    add_states = sum((v["states"] or 0) + (v["executions"] or 0) for v in ex.values())
+    add_tr = sum(v["transitions"] or 0 for v in ex.values())
+    base["states"] += add_states; base["transitions"] += add_tr; base["traces_validated_against_impl"] += add_states; base["evaluations"] += add_states
+    base["sanitizer_oracle_on_other_explorations"] = ex
+    base["rule"] += " Extra parts: the searches of C03 (auth), C16 (lazy), C20 (fwd) and the client+server explorations of C01 (ea, two clients) are re-run with the sanitizers as the only oracle; their states/executions and transitions are added."
+    return base
+PROPS["C05"]["coverage"] = cov_c05_parts
+PROPS["C05"]["tiers"] = {"quick": {"budget_s": 900}, "thorough": {"budget_s": 3000}}
+PROPS["C05"]["parts"] = [
+    {"name": "main", "harness": "C05.c", "flavor": "asan", "images": (("s", "server"),), "args": [], "weight": 1},
+    {"name": "auth", "harness": "auth.c", "flavor": "ubsan", "images": (("s", "server"),), "args": ["--prop", "C03", "--san-as", "C05"], "weight": 1},
+    {"name": "lazy", "harness": "lazy.c", "flavor": "ubsan", "images": (("s", "server"),), "args": ["--prop", "C16", "--san-as", "C05"], "weight": 1},
+    {"name": "fwd", "harness": "fwd.c", "flavor": "ubsan", "images": (("s", "server"),), "args": ["--san-as", "C05"], "tier_args": {"quick": ["--depth", "5"], "thorough": ["--depth", "6"]}, "weight": 1},
+    {"name": "ea", "harness": "ea.c", "flavor": "asan", "images": (("s", "server"), ("ca", "client")), "args": ["--prop", "C01", "--san-as", "C05"], "weight": 3},
+    {"name": "two", "harness": "ea2.c", "flavor": "asan", "images": (("s", "server"), ("ca", "client"), ("cb", "client")), "args": ["--prop", "C01", "--san-as", "C05"], "weight": 1},
+]
+PROPS["C05"]["level_text"] += " In addition the protocol-state explorations built for other properties are re-run with the sanitizers as the only oracle for the server: the authentication search (82 letters, depth 4/5), the lazy-mode/re-delivery search (75 letters incl. warmed-up sessions), the forwarding search, and the real client+server explorations (ASan build) of the configuration grid under every single fate deviation, with one and with two clients."
+PROPS["C05"]["technique"] += "; plus depth-bounded explicit-state searches and deviation-bounded client+server explorations re-used with the sanitizer oracle"
+
+_C06_EXTRA = ["ea", "two", "relay", "login"]
+_cov_c06_main = cov_c06
+def cov_c06_parts(st, tier):
+    base = _cov_c06_main(st["parts"]["main"], tier)
+    ex = _extra_cov(st, _C06_EXTRA)
+    add_states = sum((v["states"] or 0) + (v["executions"] or 0) for v in ex.values())
+    add_tr = sum(v["transitions"] or 0 for v in ex.values())
+    base["states"] += add_states; base["transitions"] += add_tr; base["traces_validated_against_impl"] += add_states
+    base["sanitizer_oracle_on_other_explorations"] = ex
+    base["rule"] += " Extra parts: the client+server explorations of C01 (one and two clients), the relay family of C11 and the login-reply enumeration of C13 are re-run with the sanitizers as the only oracle for the client."
+    return base
+PROPS["C06"]["coverage"] = cov_c06_parts
+PROPS["C06"]["tiers"] = {"quick": {"budget_s": 1200}, "thorough": {"budget_s": 3600}}
+PROPS["C06"]["parts"] = [
+    {"name": "main", "harness": "C06.c", "flavor": "asan", "images": (("s", "server"), ("ca", "client")), "args": [], "weight": 6},
+    {"name": "ea", "harness": "ea.c", "flavor": "asan", "images": (("s", "server"), ("ca", "client")), "args": ["--prop", "C01", "--san-as", "C06"], "weight": 3},
+    {"name": "two", "harness": "ea2.c", "flavor": "asan", "images": (("s", "server"), ("ca", "client"), ("cb", "client")), "args": ["--prop", "C01", "--san-as", "C06"], "weight": 1},
+    {"name": "relay", "harness": "ea.c", "flavor": "asan", "images": (("s", "server"), ("ca", "client")), "args": ["--prop", "C11", "--san-as", "C06"], "weight": 1},
+    {"name": "login", "harness": "C13.c", "flavor": PROPS["C13"].get("flavor", "ubsan"), "images": PROPS["C13"].get("images", (("s", "server"), ("ca", "client"))), "args": ["--san-as", "C06"], "weight": 1},
+]
+PROPS["C06"]["level_text"] += " In addition the real client+server explorations of the configuration grid under every single fate deviation (one and two clients, ASan build), the relay family of C11 (handshakes through 1 184 transforming relays) and the login-reply enumeration of C13 are re-run with the sanitizers as the only oracle for the client."
+
